@@ -85,6 +85,8 @@ RunStats run(std::uint64_t seed, const Knobs& knobs, const std::function<void()>
 // abandon the current run from any fiber (stacks are dropped, nothing is unwound): used when the
 // driver cannot continue safely. stats.fatal is set to `why`.
 [[noreturn]] void fail_run(const std::string& why);
+// called every 16384 scheduling steps (a liveness signal for an outer watchdog)
+void set_heartbeat(std::function<void()> fn);
 bool in_sim();                 // true while inside run() on a fiber
 Knobs& knobs();                // current run's knobs (mutable by the driver)
 Rng& rng();                    // schedule/network PRNG of the run
